@@ -20,15 +20,42 @@ REPO = os.environ.get("FORSYS_REPO", "/repo")
 PID = "C09"
 RULE = ("states = meshes reachable from a parser output by histories over {generate_mesh x8, Frame, hold, release, gc}; de-duplicated on the full mesh snapshot; "
         "non-trivial = history contains an edit; classes = (source, vertices, edges, cells, history signature)")
-BOUND = {"quick": "depth 3 from 6 initial meshes (direct k=0/k=2, SE dump, WKT, tessellation, sub-tissue with hole) + depth 2 from every connected sub-tissue of a 7-cell base (k=0 and k=2)",
-         "thorough": "depth 4 from 8 initial meshes, depth 2 from every sub-tissue of an 11-cell base, shipped dumps and skeleton depth 2"}
+BOUND = {"quick": "depth 3 from 6 initial meshes (direct k=0/k=2, SE dump, WKT, tessellation, sub-tissue with hole) + depth 2 from every connected sub-tissue of a 7-cell base (k=0 and k=2) + depth 1 from the skeleton raster with ONE staircase corner (an L-shaped step on an interface), for every one of its 220 possible positions",
+         "thorough": "depth 4 from 8 initial meshes, depth 2 from every sub-tissue of an 11-cell base, shipped dumps and skeleton depth 2; depth 2 from every single-staircase-corner variant of two rasters"}
 ASSUMPTIONS = ["Vertex.own_big_edges is not constrained by the statement (reported as a diagnostic only)",
                "a call that raises leaves no state; SegmentationArtifactException (and the ValueError that chained contractions produce) is a refusal, not a verdict",
                "holding a shallow copy of the dictionaries models a user who keeps the previous mesh alive (so that __del__ of replaced objects runs late)"]
-REQUIRED_TAGS = {"all": ["resampled", "framed", "contracted", "source:direct", "source:se", "source:wkt", "source:tess", "source:raster", "held", "artefact_triangle"]}
+REQUIRED_TAGS = {"all": ["resampled", "framed", "contracted", "source:direct", "source:se", "source:wkt", "source:tess", "source:raster", "held", "artefact_triangle", "staircase_corner"]}
 
 GM = [[ne, rse] for ne in (2, 3, 6, 12) for rse in (True, False)]
 OPS = [["gm"] + g for g in GM] + [["frame"], ["hold"], ["release"], ["gc"]]
+
+
+def staircase_corners(img):
+    """background pixels that are 4-adjacent to two diagonally adjacent skeleton pixels, both of which are interior pixels of an
+    interface (two skeleton neighbours each), and touch no other skeleton pixel; row-major order"""
+    H, W = img.shape
+    out = []
+    for y in range(1, H - 1):
+        for x in range(1, W - 1):
+            if img[y, x]:
+                continue
+            on = [(y + dy, x + dx) for dy in (-1, 0, 1) for dx in (-1, 0, 1) if (dy or dx) and img[y + dy, x + dx]]
+            if len(on) != 2:
+                continue
+            a, b = on
+            if abs(a[0] - y) + abs(a[1] - x) != 1 or abs(b[0] - y) + abs(b[1] - x) != 1 or abs(a[0] - b[0]) != 1 or abs(a[1] - b[1]) != 1:
+                continue
+            if all(sum(1 for dy in (-1, 0, 1) for dx in (-1, 0, 1) if (dy or dx) and 0 <= p[0] + dy < H and 0 <= p[1] + dx < W and img[p[0] + dy, p[1] + dx]) == 2 for p in (a, b)):
+                out.append((y, x))
+    return out
+
+
+def n_staircase_corners(spec):
+    from fsmc.ref import raster as RR
+    nx, ny, jit, pat, scale = spec
+    img, _ = RR.raster(T.hex_sites(nx, ny, jit / 100.0, pat), scale, minimal_junctions=True)
+    return len(staircase_corners(img))
 
 
 def initial_mesh(src):
@@ -79,15 +106,22 @@ def initial_mesh(src):
         sites = T.hex_sites(src[1], src[2], 0.2, src[3]) * 10.0
         els = ft.create_lattice_elements([tuple(p) for p in sites], max_distance=src[4])
         return ft.create_lattice(*els)
-    if kind == "raster":
-        # rasterised Voronoi tissue; src[2] False keeps the non-minimal junction pixels left by thinning (artefact triangles)
+    if kind in ("raster", "raster_corner"):
+        # rasterised Voronoi tissue; src[2] False keeps the non-minimal junction pixels left by thinning (artefact triangles);
+        # kind "raster_corner": the minimal raster plus ONE staircase corner (src[2] = its index in row-major order): a pixel that is
+        # 4-adjacent to two diagonally adjacent pixels of one interface, so the line has an L-shaped step there, the smallest
+        # artefact triangle a 4-connected skeletoniser leaves (its three pixels are mutually adjacent)
         import forsys.skeleton as fsk
         from PIL import Image
         from fsmc.ref import raster as RR
         from checks import c15
         nx, ny, jit, pat, scale = src[1]
         sites = T.hex_sites(nx, ny, jit / 100.0, pat)
-        img, topo = RR.raster(sites, scale, minimal_junctions=src[2])
+        img, topo = RR.raster(sites, scale, minimal_junctions=True if kind == "raster_corner" else src[2])
+        if kind == "raster_corner":
+            cy, cx = staircase_corners(img)[src[2]]
+            img = img.copy()
+            img[cy, cx] = 1
         full = np.zeros((img.shape[0] + 4, img.shape[1] + 4), np.uint8)
         full[2:-2, 2:-2] = img * 255
         full[0, :] = 255
@@ -132,7 +166,9 @@ class MeshHistories:
         import forsys.frames as ff
         from forsys.exceptions import SegmentationArtifactException
         src = self.sources[d["s"]]
-        tags = ["source:%s" % {"se_file": "se"}.get(src[0], src[0])]
+        tags = ["source:%s" % {"se_file": "se", "raster_corner": "raster"}.get(src[0], src[0])]
+        if src[0] == "raster_corner":
+            tags.append("staircase_corner")
         try:
             with fsutil.quiet():
                 v, e, c = initial_mesh(src)
@@ -237,14 +273,20 @@ def build(tier, seed):
            ["tess", 5, 4, seed + 1, 40.0], ["direct", "v5x5", hole, 0], ["raster", [5, 4, 15, 0, 40], True], ["raster", [5, 4, 15, 0, 40], False], ["direct", "lens", None, 3],
            ["raster", [5, 4, 15, 0, 40], True, "reduce"], ["raster", [4, 4, 0, 0, 30], True, "reduce"]]
     light = [["gm", 2, True], ["gm", 6, True], ["gm", 3, False], ["frame"], ["hold"], ["release"]]
+    spec = [5, 4, 15, 0, 40]
+    corners = [["raster_corner", spec, i] for i in range(n_staircase_corners(spec))]
     if tier == "quick":
         return [MeshHistories("parsers-depth3", few, 3),
+                MeshHistories("staircase-corners-all-depth1", corners, 1, [["gm", 4, True], ["gm", 2, False], ["frame"]]),
                 MeshHistories("subtissues-depth2", [["direct", "v5x4", S, k] for S in subs for k in (0, 2)], 2, light)]
     subs2 = T.connected_subsets(bases.get("v5x5"), min_size=1)
     more = few + [["se", "v5x5", None, 0], ["wkt", "v5x5", hole, 2], ["tess", 6, 6, seed + 2, 1000.0]]
     files = [["se_file", REPO + "/tests/data/furrow_gauss_velocity/stage0.dmp"], ["se_file", REPO + "/tests/data/12_12/step_20.dmp"],
              ["skeleton", REPO + "/tests/data/test_nonzero.tif"], ["skeleton", REPO + "/tests/data/experimental/exp_1.tif", "reduce"],
              ["skeleton", REPO + "/examples/data/in_vivo/t_1.tif"]]
+    spec2 = [4, 4, 0, 0, 30]
+    corners += [["raster_corner", spec2, i] for i in range(n_staircase_corners(spec2))]
     return [MeshHistories("parsers-depth4", more, 4),
+            MeshHistories("staircase-corners-all-depth2", corners, 2, light),
             MeshHistories("subtissues-depth2", [["direct", "v5x5", S, k] for S in subs2 for k in (0, 2)], 2, light),
             MeshHistories("shipped-depth2", files, 2, light)]
